@@ -24,6 +24,9 @@
 //!   rc        <pssm>                          -> ok <scores>
 //!   maxscore  <pssm>                          -> ok <f32 bits>
 //!   scan      <seq> <thr bits> <block> <pssm> -> ok <pos>:<bits> … (sorted by position)
+//!   reuse     <seq> <k> (<c|s> <thr bits> <block> <pssm>)*k   (DNA)
+//!                                             -> per step the `calc` line (c) or the `scan` answer (s), joined by ` ; `
+//!                                                (ONE striped sequence configured before every step, scored / scanned in order)
 //!   stripe    <hex text>                      -> ok <L> <rows> <rows*32 cells, row major>      | err symbol
 //!   load      <format> <hex file>             -> records joined by ` ; `, each
 //!                                                `rec <hex name|~> <hex description|~> <hex id|~> <hex accession|~> <M> | <counts or ~> | <weights> | <scores>`
@@ -421,6 +424,35 @@ fn handle_dna(op: &str, t: &mut Toks) -> String {
             let mut hits: Vec<(usize, u32)> = scanner.map(|h| (h.position(), h.score().to_bits())).collect();
             hits.sort();
             format!("ok {}", join(hits.iter().map(|(p, s)| format!("{}:{}", p, s))))
+        }
+        "reuse" => {
+            let enc = read_seq::<Dna>(t);
+            let k = t.usize();
+            let mut striped: StripedSequence<Dna> = enc.to_striped();
+            let mut out = Vec::new();
+            for _ in 0..k {
+                let kind = t.next().to_string();
+                let thr = t.f32();
+                let block = t.usize();
+                let p = match read_pssm::<Dna>(t) {
+                    Ok(p) => p,
+                    Err(()) => return "err background".into(),
+                };
+                striped.configure(&p);
+                if kind == "c" {
+                    let pli = Pipeline::<Dna, _>::dispatch();
+                    let scores = pli.score(&p, &striped);
+                    out.push(scores_line(&scores, thr));
+                } else {
+                    let mut scanner = lightmotif::scan::Scanner::<Dna, _, _>::new(&p, &striped);
+                    scanner.threshold(thr);
+                    scanner.block_size(block);
+                    let mut hits: Vec<(usize, u32)> = scanner.map(|h| (h.position(), h.score().to_bits())).collect();
+                    hits.sort();
+                    out.push(format!("ok {}", join(hits.iter().map(|(p, s)| format!("{}:{}", p, s)))));
+                }
+            }
+            out.join(" ; ")
         }
         _ => handle::<Dna>(op, t, true),
     }
